@@ -3,7 +3,7 @@ import itertools, random
 from .. import core, hist, world as W
 from .c01 import handles_ok, fix_disagreements
 
-MODULES = ['DsdVerif.Props.C04', 'DsdVerif.Props.PyDomain']
+MODULES = ['DsdVerif.Props.C04', 'DsdVerif.Props.PyDomain', 'DsdVerif.Props.PyDomain2']
 GEN_FILES = ['PyExprs', 'PyDomain', 'PySingleton']
 THEOREM_NAMES = ['domwf_init', 'domwf_request', 'domwf_drop', 'domwf_invert', 'complement_lengths_agree', 'conflict_raises',
                  'invert_involutive', 'dtype_rule', 'dtype_default_lengths', 'dtype_length_contradiction',
@@ -14,7 +14,11 @@ THEOREMS = ['Dsd.C04.' + t for t in THEOREM_NAMES] + ['Dsd.PyExprs.py_dtype_eq_m
     ['Dsd.PyDomain.' + t for t in (
         # DomainS.identifiers as written in the source (translator/pydomain.py -> Gen/PyDomain.lean; the nested `cls(...)` requests are a
         # parameter). PARTIAL: its equality with Model/DomainFull is not proved yet; what is proved is the refusal clause and a kernel-checked history
-        'py_identifiers_dtype_length_contradiction', 'model_refuses_same', 'history_with_temporaries')]
+        'py_identifiers_dtype_length_contradiction', 'model_refuses_same', 'history_with_temporaries')] + \
+    ['Dsd.PyDomain2.' + t for t in (
+        # the representation relation between the translated class state and the registry model, the death of an object, and the equality of the
+        # translated identifiers with the model for two of its four branches (starred name with a length; plain name without)
+        'rep_init', 'py_drop_eq', 'py_lenTemp_eq', 'py_identifiers_starred_length', 'py_identifiers_plain_name')]
 ASSUMPTIONS = [
     'DomainS.identifiers is hand-modelled by its net effect (Model/Objects.lean: domainRequest); the temporary complement objects it '
     'creates and drops are modelled separately (Model/DomainFull.lean) and proved to have this net effect (Props/C04Full.lean)',
